@@ -189,6 +189,9 @@ func (e *Engine) report(verbose bool) {
 			}
 		}
 	}
+	if os.Getenv("GOVC_STEPS") != "" {
+		fmt.Printf("STEPS qf=%d/%dms light=%d/%dms full=%d/%dms other=%d/%dms\n", stepCount[0], stepTime[0], stepCount[1], stepTime[1], stepCount[2], stepTime[2], stepCount[3], stepTime[3])
+	}
 	fmt.Printf("SUMMARY groups=%d discharged=%d failed=%d undecided=%d error=%d instances=%d\n", len(gs), cnt["discharged"], cnt["failed"], cnt["undecided"], cnt["error"], len(e.obligations))
 	if len(e.unsupportedSeen) > 0 {
 		fmt.Println("UNSUPPORTED:", strings.Join(sortedKeys(e.unsupportedSeen), "; "))
